@@ -187,6 +187,40 @@ VCLAUSE(derivatives_1d, 700, 6000, 150000, "the queried interval is adjacent to 
 		VCLOSE(c, "first_derivative", d1 * h, (double) p1, tolk, "Derivative(x,1)*h vs the cubic through four samples, interval " << i << " x=" << xq);
 		VCLOSE(c, "second_derivative", d2 * h * h, (double) p2, 4 * tolk, "Derivative(x,2)*h^2 vs the cubic through four samples, interval " << i << " x=" << xq);
 		VCLOSE(c, "third_derivative", d3 * h * h * h, (double) p3, 8 * tolk, "Derivative(x,3)*h^3 vs the cubic through four samples, interval " << i << " x=" << xq);
+		// the last abscissa has a curve on its left only: there all three derivatives are single-valued (those of the last segment at its end)
+		if(i == N - 2 || q == 0)
+		{
+			int il = N - 2;
+			double xl0 = X[il], hl = X[il + 1] - X[il];
+			if(il == i)
+			{
+				long double e1 = c1 + 2 * c2 + 3 * c3, e2 = 2 * c2 + 6 * c3;
+				double l1 = 0, l2 = 0, l3 = 0;
+				VMUST_RETURN("Derivative at the last abscissa", l1 = f.Derivative(X[N - 1], 1); l2 = f.Derivative(X[N - 1], 2); l3 = f.Derivative(X[N - 1], 3));
+				c.cls("derivatives_at_last_abscissa");
+				VCLOSE(c, "first_derivative_last_knot", l1 * hl, (double) e1, tolk, "Derivative(x_N,1)*h vs the end slope of the last segment's cubic");
+				VCLOSE(c, "second_derivative_last_knot", l2 * hl * hl, (double) e2, 4 * tolk, "Derivative(x_N,2)*h^2 vs the last segment's cubic");
+				VCLOSE(c, "third_derivative_last_knot", l3 * hl * hl * hl, (double) p3, 8 * tolk, "Derivative(x_N,3)*h^3 vs the last segment's cubic");
+			}
+			(void) xl0;
+		}
+	}
+	// the 1% extrapolation zone at both ends: whatever curve is returned there, Derivative(x,1) is its derivative (central difference of Interpolate)
+	for(int side = 0; side < 2; side++)
+	{
+		int i	 = side == 0 ? 0 : N - 2;
+		double h = X[i + 1] - X[i], edge = side == 0 ? X[0] : X[N - 1];
+		if(h < 64 * ulp_of(std::max(std::fabs(X[i]), std::fabs(X[i + 1]))) * 1e9)
+			continue;
+		double t  = 0.002 + 0.006 * c.s.unit(), dl = 0.001 * h;
+		double xq = side == 0 ? edge - t * h : edge + t * h;
+		double vm = 0, vp = 0, d1 = 0;
+		VMUST_RETURN("Interpolate/Derivative in the extrapolation zone", vm = f.Interpolate(xq - dl); vp = f.Interpolate(xq + dl); d1 = f.Derivative(xq, 1));
+		double sc = std::max(std::fabs(Y[i]), std::fabs(Y[i + 1]));
+		double fd = (vp - vm) / ((xq + dl) - (xq - dl));
+		c.cls("derivative_in_extrapolation_zone");
+		// rounding of the two values over 2*dl (eps*sc/1e-3) plus truncation dl^2/6 f''' (cubic coefficients are a few times the ordinates)
+		VCLOSE(c, "first_derivative_zone", d1 * h, fd * h, 1e-4 * sc + 1e-9 * std::fabs(fd * h), "Derivative(x,1) in the extrapolation zone beyond " << (side ? "the last" : "the first") << " abscissa vs the central difference of Interpolate at x=" << xq);
 	}
 }
 
@@ -278,8 +312,19 @@ VCLAUSE(reproduction_1d, 400, 6000, 150000, "non-uniform grid (neighbouring gap 
 	int nq = 24;
 	for(int k = 0; k < nq; k++)
 	{
-		int i	  = (int) s.range(0, N - 2);
+		// the first and last interval are always visited (only there a wrong boundary slope shows), and so is the 1% extrapolation zone
+		// beyond either end, where the line / parabola must simply continue
+		int i	  = k == 0 ? 0 : (k == 1 ? N - 2 : (int) s.range(0, N - 2));
 		double xq = kind == 0 ? x[i] + (x[i + 1] - x[i]) * ((double) s.range(0, 16) / 16.0) : x[i] + (x[i + 1] - x[i]) * s.unit();
+		if(k == 2 || k == 3)
+		{
+			i		 = k == 2 ? 0 : N - 2;
+			double h = x[i + 1] - x[i], t = kind == 0 ? (double) s.range(1, 4) / 512.0 : 0.0099 * s.unit();
+			xq		 = k == 2 ? x[0] - h * t : x[N - 1] + h * t;
+			if(!(xq < x[0] || xq > x[N - 1]))
+				xq = k == 2 ? x[0] : x[N - 1];
+			c.cls("extrapolation_zone_query");
+		}
 		double v  = 0, d1 = 0;
 		VMUST_RETURN("Interpolate", v = f(xq); d1 = f.Derivative(xq, 1));
 		long double e = exact((long double) xq);
@@ -350,13 +395,16 @@ VCLAUSE(bilinear_2d, 600, 6000, 150000, "non-square grid or non-uniform axes")
 		int i = (int) s.range(0, nx - 1), j = (int) s.range(0, ny - 1);
 		double v = 0;
 		VMUST_RETURN("Interpolate at a grid node", v = f(X[i], Y[j]));
-		VCHECK(v == fv[i][j] * fs, "grid node (" << i << "," << j << "): f=" << v << " tabulated " << fv[i][j] * fs);
+		// (to rounding: an implementation f00 + t (f10 - f00) is as good as one that returns the stored value)
+		VCLOSE(c, "grid_node", v, fv[i][j] * fs, 4 * EPS * std::fabs(fv[i][j] * fs), "grid node (" << i << "," << j << ")");
+		if(v == fv[i][j] * fs)
+			c.cls("grid_node_exact");
 	}
 	// cells
 	for(int k = 0; k < 16; k++)
 	{
 		int i = (int) s.range(0, nx - 2), j = (int) s.range(0, ny - 2);
-		double tx = s.pick({1, 4}) == 0 ? (s.coin() ? 1e-9 : 1 - 1e-9) : s.unit(), ty = s.unit();
+		double tx = s.pick({1, 4}) == 0 ? (s.coin() ? 1e-9 : 1 - 1e-9) : s.unit(), ty = s.pick({1, 4}) == 0 ? (s.coin() ? 1e-9 : 1 - 1e-9) : s.unit();
 		double xq = X[i] + (X[i + 1] - X[i]) * tx, yq = Y[j] + (Y[j + 1] - Y[j]) * ty;
 		if(!(xq >= X[i] && xq <= X[i + 1] && yq >= Y[j] && yq <= Y[j + 1]))
 			continue;
@@ -388,6 +436,38 @@ VCLAUSE(bilinear_2d, 600, 6000, 150000, "non-square grid or non-uniform axes")
 			double tol = 32 * EPS * sc2 + 4 * slope * ulp_of(xe);
 			VCLOSE(c, "edge_continuity", vl, vr, tol, "jump across the cell edge x=" << xe << " at y=" << yq);
 			VCLOSE(c, "edge_value", ve, vr, tol, "value on the cell edge x=" << xe << " at y=" << yq);
+		}
+		// ... and across the cell edge y = Y[j+1] at this x
+		if(j + 2 < ny)
+		{
+			double ye = Y[j + 1], yl = std::nextafter(ye, -INFINITY), yr = std::nextafter(ye, INFINITY);
+			double vl = 0, vr = 0, ve = 0;
+			VMUST_RETURN("Interpolate across a cell edge", vl = f(xq, yl); vr = f(xq, yr); ve = f(xq, ye));
+			double f02 = fv[i][j + 2] * fs, f12 = fv[i + 1][j + 2] * fs;
+			double sc2 = std::max(sc, std::max(std::fabs(f02), std::fabs(f12)));
+			double slope = (std::fabs(f01 - f00) + std::fabs(f11 - f10)) / (Y[j + 1] - Y[j]) + (std::fabs(f02 - f01) + std::fabs(f12 - f11)) / (Y[j + 2] - Y[j + 1]);
+			double tol = 32 * EPS * sc2 + 4 * slope * ulp_of(ye);
+			VCLOSE(c, "edge_continuity_y", vl, vr, tol, "jump across the cell edge y=" << ye << " at x=" << xq);
+			VCLOSE(c, "edge_value_y", ve, vr, tol, "value on the cell edge y=" << ye << " at x=" << xq);
+		}
+		// a grid corner approached from its four cells
+		if(i + 2 < nx && j + 2 < ny && k % 4 == 0)
+		{
+			double xe = X[i + 1], ye = Y[j + 1], vc = 0, v4[4] = {0, 0, 0, 0};
+			VMUST_RETURN("Interpolate around a grid corner", vc = f(xe, ye); v4[0] = f(std::nextafter(xe, -INFINITY), std::nextafter(ye, -INFINITY)); v4[1] = f(std::nextafter(xe, INFINITY), std::nextafter(ye, -INFINITY));
+						 v4[2] = f(std::nextafter(xe, -INFINITY), std::nextafter(ye, INFINITY)); v4[3] = f(std::nextafter(xe, INFINITY), std::nextafter(ye, INFINITY)));
+			double scc = 0, sl = 0;
+			for(int di = 0; di <= 2; di++)
+				for(int dj = 0; dj <= 2; dj++)
+					scc = std::max(scc, std::fabs(fv[i + di][j + dj] * fs));
+			for(int di = 0; di <= 1; di++)
+				for(int dj = 0; dj <= 2; dj++)
+					sl = std::max(sl, std::fabs(fv[i + di + 1][j + dj] - fv[i + di][j + dj]) * fs / (X[i + di + 1] - X[i + di]) * ulp_of(xe));
+			for(int di = 0; di <= 2; di++)
+				for(int dj = 0; dj <= 1; dj++)
+					sl = std::max(sl, std::fabs(fv[i + di][j + dj + 1] - fv[i + di][j + dj]) * fs / (Y[j + dj + 1] - Y[j + dj]) * ulp_of(ye));
+			for(int q = 0; q < 4; q++)
+				VCLOSE(c, "corner_continuity", v4[q], vc, 32 * EPS * scc + 8 * sl, "value next to the grid corner (" << xe << "," << ye << ") in quadrant " << q << " vs the value at the corner");
 		}
 	}
 }
